@@ -1086,3 +1086,154 @@ Proof.
   exists k', t1, t1'. repeat split; auto.
   intros ->. assert (t1 = t) by congruence. subst t1. destruct S1; congruence.
 Qed.
+
+(** * Non-vacuity: concrete reachable states and windows.
+    K = 2, one method "m", a batch of three calls (params 1, 2, 3; ids "1", "2", "3"). *)
+Definition after (c : config) (tr : list label) : state :=
+  match run (init_of c) tr with Some (s, _) => s | None => init_of c end.
+Definition run_ok (c : config) (tr : list label) : bool :=
+  match run (init_of c) tr with Some _ => true | None => false end.
+
+Lemma after_reach c tr : reach c (after c tr).
+Proof.
+  unfold after. destruct (run (init_of c) tr) as [[s oss]|] eqn:E; [|apply reach_init].
+  eapply run_reach; [apply reach_init|exact E].
+Qed.
+
+Definition ex_cfg : config :=
+  {| cf_K := 2; cf_push := false; cf_builtin := true; cf_methods := [[109%N]]; cf_unblock := false |}.
+Definition ex_call (id p : N) : jmsg :=
+  {| j_id := [id]; j_method := [109%N]; j_params := [p]; j_error := None; j_result := []; j_err := None |}.
+Definition ex_batch : inbound := InMsgs true [ex_call 49 1; ex_call 50 2; ex_call 51 3].
+Definition ex_dispatch (i : inbound) : list label := [LStart; LFeed (FMsg i); LRelRead; LRelNext; LRelBarrier].
+(* two running, one waiting *)
+Definition ex_tr_full : list label := ex_dispatch ex_batch ++ [LRelAcquire 0; LRelAcquire 1; LRelAcquire 2].
+(* ... then rpc.Cancel of the waiter *)
+Definition ex_tr_cancel : list label := ex_tr_full ++ [LCallCancel 7 [51%N]; LRelCancel 7].
+(* ... then the first handler returns and releases its slot *)
+Definition ex_tr_release : list label := ex_tr_full ++ [LGate [1%N] (ORes [53%N])].
+(* a single call, everything parked: one slot free *)
+Definition ex_tr_one : list label :=
+  ex_dispatch (InMsgs false [ex_call 49 1]) ++ [LRelNext; LRelAcquire 0].
+(* the built-in *)
+Definition ex_bi : jmsg :=
+  {| j_id := [49%N]; j_method := rpc_server_info; j_params := []; j_error := None; j_result := []; j_err := None |}.
+Definition ex_tr_bi : list label := ex_dispatch (InMsgs false [ex_bi]) ++ [LRelNext].
+(* a call cancelled before its goroutine reaches Acquire *)
+Definition ex_tr_early : list label := ex_dispatch ex_batch ++ [LCallCancel 7 [49%N]; LRelCancel 7].
+
+Example sem_invariant_nonvacuous :
+  run_ok ex_cfg ex_tr_full = true /\ reach ex_cfg (after ex_cfg ex_tr_full) /\
+  map t_st (tasks (after ex_cfg ex_tr_full)) = [TRunning; TRunning; TWaiting] /\
+  slots_used (after ex_cfg ex_tr_full) = 2 /\ sem_free (after ex_cfg ex_tr_full) = 0 /\
+  (* and a state with a free slot *)
+  run_ok ex_cfg ex_tr_one = true /\
+  slots_used (after ex_cfg ex_tr_one) = 1 /\ sem_free (after ex_cfg ex_tr_one) = 1.
+Proof. split; [vm_compute; reflexivity|]. split; [apply after_reach|]. vm_compute. repeat split. Qed.
+
+(* the bound is attained: K = 2 handlers executing, a third request dispatched *)
+Example bound_nonvacuous :
+  exists s oss, run (init_of ex_cfg) ex_tr_full = Some (s, oss) /\ executing s = cf_K ex_cfg /\
+                length (tasks s) = 3.
+Proof. eexists _, _. split; [vm_compute; reflexivity|]. vm_compute. auto. Qed.
+
+(* handler entries: directly at Acquire, and by a grant when a slot is released *)
+Example start_takes_slot_nonvacuous :
+  (exists s' os, reach ex_cfg (after ex_cfg (ex_dispatch ex_batch)) /\
+     step (after ex_cfg (ex_dispatch ex_batch)) (LRelAcquire 0) = Some (s', os) /\ In (OStart [1%N] false) os) /\
+  (exists s' os, reach ex_cfg (after ex_cfg ex_tr_release) /\
+     step (after ex_cfg ex_tr_release) (LRelHandled 0) = Some (s', os) /\ In (OStart [3%N] false) os /\
+     map t_st (tasks (after ex_cfg ex_tr_release)) = [TAtHandled (ORes [53%N]); TRunning; TWaiting] /\
+     map t_st (tasks s') = [TDone (Some (BRes [53%N])); TRunning; TRunning]).
+Proof.
+  split; eexists _, _; (split; [apply after_reach|]); (split; [vm_compute; reflexivity|]); vm_compute; auto.
+Qed.
+
+Example builtin_takes_slot_nonvacuous :
+  exists t s' os, reach ex_cfg (after ex_cfg ex_tr_bi) /\
+    nth_error (tasks (after ex_cfg ex_tr_bi)) 0 = Some t /\ t_builtin t = true /\ t_cancelled t = false /\
+    step_raw (after ex_cfg ex_tr_bi) (LRelAcquire 0) = Some (s', os) /\
+    os = [] /\ slots_used s' = 1 /\ executing s' = 0 /\ sem_free s' = 1.
+Proof.
+  eexists _, _, _. split; [apply after_reach|]. split; [vm_compute; reflexivity|].
+  split; [reflexivity|]. split; [reflexivity|]. split; [vm_compute; reflexivity|]. vm_compute. auto.
+Qed.
+
+Example wait_queue_nonvacuous :
+  reach ex_cfg (after ex_cfg ex_tr_full) /\ sem_wait (after ex_cfg ex_tr_full) = [2] /\
+  (exists t, nth_error (tasks (after ex_cfg ex_tr_full)) 2 = Some t /\ t_st t = TWaiting) /\
+  reach ex_cfg (after ex_cfg ex_tr_one) /\ 0 < sem_free (after ex_cfg ex_tr_one) /\
+  sem_wait (after ex_cfg ex_tr_one) = [].
+Proof.
+  split; [apply after_reach|]. split; [vm_compute; reflexivity|].
+  split; [eexists; split; vm_compute; reflexivity|].
+  split; [apply after_reach|]. vm_compute. auto.
+Qed.
+
+Example work_conserving_nonvacuous :
+  reach ex_cfg (after ex_cfg ex_tr_one) /\ crash (after ex_cfg ex_tr_one) = None /\
+  quiescent (after ex_cfg ex_tr_one) = true /\ 0 < sem_free (after ex_cfg ex_tr_one) /\
+  exists t, nth_error (tasks (after ex_cfg ex_tr_one)) 0 = Some t /\ t_st t = TRunning.
+Proof.
+  split; [apply after_reach|]. split; [vm_compute; reflexivity|]. split; [vm_compute; reflexivity|].
+  split; [vm_compute; auto|]. eexists; split; vm_compute; reflexivity.
+Qed.
+
+(* with all slots taken the waiter does wait: the hypothesis 0 < sem_free matters *)
+Example work_conserving_needs_free_slot :
+  sem_free (after ex_cfg ex_tr_full) = 0 /\
+  exists t, nth_error (tasks (after ex_cfg ex_tr_full)) 2 = Some t /\ t_st t = TWaiting.
+Proof. split; [vm_compute; reflexivity|]. eexists; split; vm_compute; reflexivity. Qed.
+
+Example acquire_enabled_nonvacuous :
+  exists t, crash (after ex_cfg (ex_dispatch ex_batch)) = None /\
+    nth_error (tasks (after ex_cfg (ex_dispatch ex_batch))) 1 = Some t /\
+    at_acquire (after ex_cfg (ex_dispatch ex_batch)) t = true.
+Proof. eexists. split; [vm_compute; reflexivity|]. split; vm_compute; reflexivity. Qed.
+
+Example cancelled_not_waiting_nonvacuous :
+  exists t, reach ex_cfg (after ex_cfg ex_tr_cancel) /\
+    nth_error (tasks (after ex_cfg ex_tr_cancel)) 2 = Some t /\ t_cancelled t = true /\
+    t_st t = TDone (Some cancel_err) /\ sem_wait (after ex_cfg ex_tr_cancel) = [].
+Proof. eexists. split; [apply after_reach|]. split; [vm_compute; reflexivity|]. vm_compute. auto. Qed.
+
+Example cancel_task_waiting_nonvacuous :
+  exists t, reach ex_cfg (after ex_cfg ex_tr_full) /\
+    nth_error (tasks (after ex_cfg ex_tr_full)) 2 = Some t /\ t_st t = TWaiting /\
+    In 2 (sem_wait (after ex_cfg ex_tr_full)) /\
+    (* and rpc.Cancel of its id does call cancel_task 2 *)
+    map t_st (tasks (after ex_cfg ex_tr_cancel)) = [TRunning; TRunning; TDone (Some cancel_err)].
+Proof. eexists. split; [apply after_reach|]. split; [vm_compute; reflexivity|]. vm_compute. auto. Qed.
+
+Example acquire_cancelled_nonvacuous :
+  exists t s' os, reach ex_cfg (after ex_cfg ex_tr_early) /\
+    nth_error (tasks (after ex_cfg ex_tr_early)) 0 = Some t /\ t_st t = TAtAcquire /\ t_cancelled t = true /\
+    step (after ex_cfg ex_tr_early) (LRelAcquire 0) = Some (s', os) /\ os = [] /\ sem_free s' = 2.
+Proof.
+  eexists _, _, _. split; [apply after_reach|]. split; [vm_compute; reflexivity|].
+  split; [reflexivity|]. split; [reflexivity|]. split; [vm_compute; reflexivity|]. vm_compute. auto.
+Qed.
+
+Example cancelled_response_nonvacuous :
+  exists t, nth_error (tasks (after ex_cfg ex_tr_cancel)) 2 = Some t /\
+    t_st t = TDone (Some cancel_err) /\ is_note t = false /\
+    response_of t = Some {| r_id := [51%N]; r_body := BErr Cancelled s_ctx_canceled |}.
+Proof. eexists. split; [vm_compute; reflexivity|]. vm_compute. auto. Qed.
+
+(* forward progress: the cancelled waiter stays done while the others run on and a slot is released *)
+Example done_never_runs_nonvacuous :
+  exists t s' oss, reach ex_cfg (after ex_cfg ex_tr_cancel) /\
+    nth_error (tasks (after ex_cfg ex_tr_cancel)) 2 = Some t /\ t_st t = TDone (Some cancel_err) /\
+    run (after ex_cfg ex_tr_cancel) [LGate [1%N] (ORes [53%N]); LRelHandled 0] = Some (s', oss) /\
+    map t_st (tasks s') = [TDone (Some (BRes [53%N])); TRunning; TDone (Some cancel_err)] /\
+    sem_free s' = 1 /\ oss = [[OGate [1%N] false]; []].
+Proof.
+  eexists _, _, _. split; [apply after_reach|]. split; [vm_compute; reflexivity|].
+  split; [reflexivity|]. split; [vm_compute; reflexivity|]. vm_compute. auto.
+Qed.
+
+Example forward_nonvacuous :
+  exists s' os, step (after ex_cfg ex_tr_full) (LGate [2%N] (OErr 5 [])) = Some (s', os) /\
+    map (fun t => rank (t_st t)) (tasks (after ex_cfg ex_tr_full)) = [2; 2; 1] /\
+    map (fun t => rank (t_st t)) (tasks s') = [2; 3; 1].
+Proof. eexists _, _. split; [vm_compute; reflexivity|]. vm_compute. auto. Qed.
